@@ -53,6 +53,10 @@ var c14Scenarios = [][]c14Op{
 	{{"ADD", "over the moon", "K3"}, {"ADD", "under the sea", "K3"}},
 	{{"ADD", "over the moon", "K3"}, {"ADD", "under the sea", "K3"}, {"MM", "x over the moon y under the sea", ""}},
 	{{"ADD", "over the moon", "K3"}, {"ADD", "under the sea", "K4"}, {"NM", "under the sea", ""}},
+	// two inexact NearestMatch calls with DIFFERENT candidate sets (the length filter keeps only K1
+	// for the first, K1 and K2 for the second)
+	{{"NM", "the quick brown fix", ""}, {"NM", "lazy dog jumped", ""}},
+	{{"NM", "the quick brown fix", ""}, {"NM", "lazy dog jumped", ""}, {"MM", "x lazy dog jumps y", ""}},
 }
 
 // c14Probe observes the final state after all calls returned: which of the values that were
@@ -186,7 +190,7 @@ func c14Sched(c *vrep.Ctx) {
 				msg = fmt.Sprintf("the calls returned jointly %q, which no sequential order of the calls produces (sequential outcomes: %q)", strings.Join(got, " || "), al)
 			}
 		}
-		r.Note = map[string]interface{}{"msg": msg, "steps": s.Steps, "switches": s.Switches, "enabled": s.MaxEnabled, "got": strings.Join(got, " || ")}
+		r.Note = map[string]interface{}{"msg": msg, "steps": s.Steps, "switches": s.Switches, "enabled": s.MaxEnabled, "got": strings.Join(got, " || "), "obs": fmt.Sprintf("%s|%d|%d|%s", strings.Join(got, " || "), s.Steps, s.Switches, msg)}
 	}
 	c.Run(vSplitExplorer(c, budget, c.ParamInt("split", 8)), body, func(r *vx.Run) {
 		if r.Note["horizon"] != nil {
